@@ -62,18 +62,13 @@ func vModelID(m interface{}) string {
 	return "other-model"
 }
 
-var vDeltaTokens map[*model.DeltaModel]string
-
-// vDeltaToken names the patch list of a delta (its content is opaque at this level).
+// vDeltaToken names the patch list of a delta by value (copies of one decoded delta get the same name).
 func vDeltaToken(d *model.DeltaModel) string {
-	if vDeltaTokens == nil {
-		vDeltaTokens = map[*model.DeltaModel]string{}
+	t := ""
+	for _, p := range d.Patches {
+		a, _ := p["action"].(string)
+		t = t + "|" + VUFString("patch.identity", a, len(p))
 	}
-	if t, ok := vDeltaTokens[d]; ok {
-		return t
-	}
-	t := VNondetString("delta.patches.token")
-	vDeltaTokens[d] = t
 	return t
 }
 
@@ -97,7 +92,6 @@ var vLog *vCallLog
 // functions (deterministic per argument) and typed havoc.
 func vInstallParserStubs() {
 	vLog = &vCallLog{}
-	vDeltaTokens = nil
 	vJWSMemo = map[string]*internal.JSONWebSignature{}
 	// multihash decoding: valid?(mh), code(mh)
 	VStub(vMod+"hashing.GetMultihashCode", func(mh string) (uint64, error) {
